@@ -159,6 +159,19 @@ def idx {α : Type} (l : List α) (i : Int) : M α :=
 def setIdx {α : Type} (l : List α) (i : Int) (x : α) : M (List α) :=
   if i < 0 then .panic else if i.toNat < l.length then .ok (l.set i.toNat x) else .panic
 
+/-- `v[i].field = x` on a vector of records: the element is rebuilt by `f`; out of range panics. -/
+def modifyIdx {α : Type} (l : List α) (i : Int) (f : α → α) : M (List α) :=
+  if i < 0 then .panic else
+    match l[i.toNat]? with
+    | some e => .ok (l.set i.toNat (f e))
+    | none => .panic
+
+/-- `v.last_mut().unwrap().field = x`: panics on an empty vector. -/
+def modifyLast {α : Type} (l : List α) (f : α → α) : M (List α) :=
+  match l.getLast? with
+  | some e => .ok (l.dropLast ++ [f e])
+  | none => .panic
+
 def len {α : Type} (l : List α) : Int := (l.length : Int)
 
 /-- `for x in xs { state = f x state }`. -/
